@@ -425,6 +425,13 @@ class C08(Prop):
                 body.append("tick")
                 if rng.chance(1, 3):
                     body.append("tick")
+            elif rng.chance(1, 15) and st["top"] >= 2:
+                # living names: name, enable, look up (also after disable / destruct)
+                x = rng.range(2, st["top"] + 1)
+                nm = rng.choice(["la", "lb", "lc"])
+                body += ["t ln,o%d,%s" % (x, nm), "t ec,o%d" % x, "t fl,%s" % nm]
+                body.append(rng.choice(["t dc,o%d" % x, "t de,o%d" % x, "t ln,o%d,lb" % x, "t fl,lb"]))
+                body.append("t fl,%s" % nm)
             elif rng.chance(1, 12):
                 body.append("gc")
             else:
@@ -492,6 +499,129 @@ class C08(Prop):
             h["max_population"] = max(h["max_population"], pop)
             h["scripts"] += sum(1 for l in c.lines if l.startswith("script "))
         return h
+
+
+    # ---- oracle self-test: negative examples per clause (the kernel cannot evaluate the string functions of `judge`,
+    # so these are executed with the compiled oracle on every run instead of being `example`s) --------------------
+    def judge_selftest(self):
+        G = ["S o2 c08/b0 env=0 inv=o3 ec=1 cl=0 ln=la sent=-", "S o3 c08/b0#1 env=o2 inv= ec=0 cl=1 ln=0 sent=-",
+             "S ot 1 o2", "S ot 2 o3", "S ol o3,o2", "S dl", "S lv 7 o2"]
+
+        def snap(**repl):
+            out = []
+            for l in G:
+                key = " ".join(l.split()[:2]) if l.split()[1] in ("ot", "lv", "ol", "dl") else l.split()[1]
+                k2 = l.split()[1] + ("" if l.split()[1] in ("ol", "dl") else l.split()[2]) if l.split()[1] in ("ot", "lv", "ol", "dl") else l.split()[1]
+                out.append(repl.get(k2, l))
+            return [x for x in out if x is not None] + repl.get("extra", [])
+        P2 = "P o2 ref=o2 find=o2/1 env=0 inv=o3 walk=o3 fl=o2"
+        P3 = "P o3 ref=o3 find=o3/1 env=o2 inv= walk= fl=-"
+        born = ["new o2 c08/b0", "he o2 create", "new o3 c08/b0#1", "he o3 create"]
+        dead3 = born + ["deb o3", "r de o3 ok"]
+        mv = ["mvb o3 o2", "r mv o3 o2 ok"]
+        T = [  # (expected kind, trace)
+            ("ok", snap() + [P2, P3, "P objects o2,o3", "P livings o2", "P heartbeats o2"]),
+            ("ok", born + mv + ["deb o2", "hb o3 mod 0", "he o3 mod", "r de o2 ok"]),
+            ("resurrected", dead3 + snap()),
+            ("name-not-unique", snap(o3="S o3 c08/b0 env=o2 inv= ec=0 cl=1 ln=0 sent=-")),
+            ("env-not-live", snap(o3="S o3 c08/b0#1 env=o9 inv= ec=0 cl=1 ln=0 sent=-")),
+            ("env-inventory-disagree", snap(o2="S o2 c08/b0 env=0 inv= ec=1 cl=0 ln=la sent=-")),
+            ("inventory-duplicate", snap(o2="S o2 c08/b0 env=0 inv=o3,o3 ec=1 cl=0 ln=la sent=-")),
+            ("inventory-has-non-live", snap(o2="S o2 c08/b0 env=0 inv=o3,o7 ec=1 cl=0 ln=la sent=-")),
+            ("in-two-inventories", snap(extra=["S o4 c08/b1 env=0 inv=o3 ec=0 cl=0 ln=0 sent=-", "S ot 3 o4"], ol="S ol o4,o3,o2")),
+            ("env-cycle", snap(o2="S o2 c08/b0 env=o3 inv=o3 ec=1 cl=0 ln=la sent=-", o3="S o3 c08/b0#1 env=o2 inv=o2 ec=0 cl=1 ln=0 sent=-")),
+            ("name-table-miss", snap(ot2=None)),
+            ("name-table-miss", snap(ot2="S ot 2 o3,o3")),
+            ("object-list-miss", snap(ol="S ol o2")),
+            ("living-table-miss", snap(lv7=None)),
+            ("living-table-extra", snap(lv7="S lv 7 o2,o3")),
+            ("destructed-registered", snap(ot1="S ot 1 o2,o8")),
+            ("live-on-destruct-list", snap(dl="S dl o3")),
+            ("destruct-list-duplicate", snap(dl="S dl o8,o8")),
+            ("destructed-still-linked", snap(extra=["S o5 D super"])),
+            ("destructed-still-linked", snap(extra=["S o5 D sent"])),
+            ("destructed-called", dead3 + ["mvb o2 o2"][:0] + ["deb o2", "hb o3 mod 0"]),
+            ("destructed-called", dead3 + ["hb o3 hbeat 0"]),
+            ("destructed-called", dead3 + ["hb o3 act o2"]),
+            ("destructed-called", dead3 + ["hb o3 id 0"]),
+            ("called-while-destructed", ["hb-stale-object o3"]),
+            ("destructed-visible", dead3 + ["mvb o2 o2"][:0] + ["hb o2 act o3"]),
+            ("destructed-visible", dead3 + ["r fo c08/b0#1 o3 1"]),
+            ("destructed-visible", dead3 + ["r cl c08/b0 o3"]),
+            ("destructed-visible", dead3 + ["r fl la o3 1"]),
+            ("destructed-visible", dead3 + ["r rd o2 o3 o3 o3"]),
+            ("destructed-visible", dead3 + ["r kp o2 o3 ok"]),
+            ("destructed-visible", dead3 + ["r ec o3 ok"]),
+            ("destructed-visible", dead3 + ["r ln o3 la ok"]),
+            ("destructed-visible", dead3 + ["r aa o3 va ok"]),
+            ("destructed-visible", dead3 + ["r hbe o3 ok"]),
+            ("destructed-visible", dead3 + ["r fis c08/b0 o3"]),
+            ("destructed-visible", dead3 + ["r pr o2 o3 o3"]),
+            ("destructed-visible", dead3 + ["P objects o2,o3"]),
+            ("destructed-visible", dead3 + ["P livings o3"]),
+            ("destructed-visible", dead3 + ["P heartbeats o3"]),
+            ("destructed-visible", dead3 + ["P o2 ref=o2 find=o2/1 env=o3 inv= walk= fl=-"]),
+            ("destructed-visible", dead3 + ["P o2 ref=o2 find=o2/1 env=0 inv=o3 walk= fl=-"]),
+            ("destructed-reference-used", dead3 + ["deb o3"]),
+            ("destructed-reference-used", dead3 + ["mvsb o3 c08/b1"]),
+            ("destructed-moved", dead3 + ["mvb o3 o2", "r mv o3 o2 ok"]),
+            ("moved-into-destructed", dead3 + ["mvb o2 o3", "r mv o2 o3 ok"]),
+            ("destructed-moved", born + ["mvsb o3 c08/b0", "deb o3", "r de o3 ok", "r mvs o3 c08/b0 ok o2"]),
+            ("move-into-own-inventory-accepted", born + mv + ["mvb o2 o3", "r mv o2 o3 ok"]),
+            ("move-refused", born + ["mvb o3 o2", "err *Can't move object inside itself."]),
+            ("id-reused", born + ["new o3 c08/b1"]),
+            ("frame-mismatch", born + ["mvb o3 o2", "r mv o2 o3 ok"]),
+            ("frame-mismatch", born[:2] + ["he o2 init"]),
+            ("init-outside-move", born + ["hb o2 init o3"]),
+            ("init-without-moved-object", born + ["new o4 c08/b1", "he o4 create", "mvb o3 o2", "hb o4 init o2"]),
+            ("init-after-item-left", born + ["new o4 c08/b1", "he o4 create", "mvb o3 o2", "hb o2 init o3", "mvb o3 o4", "r mv o3 o4 ok", "he o2 init", "hb o3 init o2"]),
+            ("init-with-object-outside-destination", born + ["new o4 c08/b1", "he o4 create", "mvb o3 o2", "hb o3 init o4"]),
+            ("move_or_destruct-outside-destruct", born + ["hb o3 mod 0"]),
+            ("found-destructed", ["r ld c08/b0 0 1"]),
+            ("found-destructed", ["r fo c08/b0 0 1"]),
+            ("found-destructed", ["r fl la 0 1"]),
+            ("found-destructed", ["P o2 ref=o2 find=0/1 env=0 inv= walk= fl=-"]),
+            ("reference-reads-differ", born + ["r rd o2 o3 0 o3"]),
+            ("objects-mismatch", snap() + ["P objects o2"]),
+            ("livings-mismatch", snap() + ["P livings o2,o3"]),
+            ("heartbeats-mismatch", snap() + ["P heartbeats o9"]),
+            ("destructed-reference-nonzero", snap() + ["P o7 ref=o7 find=0/0"]),
+            ("live-reference-lost", snap() + ["P o3 ref=0 find=o3/1 env=o2 inv= walk= fl=-"]),
+            ("lookup-wrong", snap() + ["P o3 ref=o3 find=0/0 env=o2 inv= walk= fl=-"]),
+            ("lookup-wrong", snap() + ["P o3 ref=o3 find=o2/1 env=o2 inv= walk= fl=-"]),
+            ("environment-mismatch", snap() + ["P o3 ref=o3 find=o3/1 env=0 inv= walk= fl=-"]),
+            ("all_inventory-mismatch", snap() + ["P o2 ref=o2 find=o2/1 env=0 inv= walk=o3 fl=o2"]),
+            ("first-next-inventory-mismatch", snap() + ["P o2 ref=o2 find=o2/1 env=0 inv=o3 walk= fl=o2"]),
+            ("find_living-wrong", snap() + ["P o2 ref=o2 find=o2/1 env=0 inv=o3 walk=o3 fl=o3"]),
+            ("find_living-missed", snap() + ["P o2 ref=o2 find=o2/1 env=0 inv=o3 walk=o3 fl=0"]),
+            ("present-outside-environment", born + ["new o4 c08/b1", "he o4 create", "mvb o3 o4", "r mv o3 o4 ok", "r pr o2 o3 o3"]),
+            ("present-wrong-object", born + mv + ["r pr o2 o9 o3"]),
+            ("destruct-refused", born + ["deb o3", "err *Only this_object() can be destructed from move_or_destruct."]),
+            ("ok", born + mv + ["deb o2", "hb o3 mod 0", "deb o2", "err *Only this_object() can be destructed from move_or_destruct."]),
+            ("walker", ["W ot-destructed o2"]),
+            ("crash", ["crash signal 11"]),
+            ("memory-error", ["sanitizer ERROR: AddressSanitizer: heap-use-after-free"]),
+            ("unexpected-line", ["something else"]),
+        ]
+        return T
+
+    def extra_checks(self, ctx, tier, rng):
+        T = self.judge_selftest()
+        cases = [E.Case("jt%d" % i, ["--"] + tr) for i, (_, tr) in enumerate(T)]
+        res = E.nvdrive(self.id, "judge", E.cases_text(cases))
+        bad = []
+        for i, (kind, _) in enumerate(T):
+            v = res.get("jt%d" % i, [])
+            got = [x.split()[1] for x in v if x.startswith("bad ") and len(x.split()) > 1]
+            if kind == "ok":
+                if v != ["ok"]:
+                    bad.append("positive example %d judged %s" % (i, v[:2]))
+            elif kind not in got:
+                bad.append("negative example %d (%s) judged %s" % (i, kind, v[:2]))
+        self.selftest_n = len(T)
+        if bad:
+            return [{"kind": "obligation-broken", "name": "judge-selftest", "detail": "\n".join(bad[:20])}]
+        return []
 
     # ---- implementation side -------------------------------------------------
     def prepare(self, ctx):
